@@ -4,6 +4,7 @@ import (
 	"context"
 	"fmt"
 	"net/http"
+	"strings"
 
 	"github.com/rs/zerolog/log"
 	"github.com/semafind/semadb/httpapi/utils"
@@ -28,6 +29,15 @@ func AppHeaderMiddleware(userPlans map[string]models.UserPlan, next http.Handler
 		}
 		if appHeaders.UserId == "" || appHeaders.PlanId == "" {
 			utils.Encode(w, http.StatusBadRequest, map[string]string{"error": "missing X-User-Id or X-Plan-Id headers"})
+			return
+		}
+		/* The user id becomes a directory name under the shard root
+		 * (userCollections/<userId>/<collectionId>/<shardId>). The ids "." and
+		 * ".." or ids with a path separator would resolve to the directories of
+		 * other users, e.g. deleting a collection as "." removes the
+		 * collections of the user named like that collection. */
+		if appHeaders.UserId == "." || appHeaders.UserId == ".." || strings.ContainsAny(appHeaders.UserId, "/\\") {
+			utils.Encode(w, http.StatusBadRequest, map[string]string{"error": "invalid X-User-Id header"})
 			return
 		}
 		log.Debug().Interface("appHeaders", appHeaders).Msg("AppHeaderMiddleware")
